@@ -120,6 +120,37 @@ theorem C14_code_backward {step back cyc n} (h : IsCycle step back cyc n) (k : N
       (List.range' 0 k).map (fun i => if i < n then some (cyc (n - i - 1)) else none) := by
   rw [C14_code_double_ended h, ciSpec_back]
 
+/-- **The hull iterator is double-ended correct on every valid state**: under the link, anchor and
+    outer-cycle invariants (checked on every dumped state) the outer boundary is a cycle in the sense
+    of `IsCycle` for `next` / `prev`, so any interleaving of `next()` / `next_back()` on
+    `convex_hull()` hands out each hull edge exactly once — `i`-th from the front is the `i`-fold
+    `next` of the anchor, `i`-th from the back the `(n-1-i)`-fold. -/
+theorem C14_code_hull_double_ended (s : St) (hl : s.LinksOK) (ha : s.AnchorsOK) (ho : s.OuterCycleOK)
+    (hpos : 0 < s.nE) (ops : List Bool) :
+    ∃ e0, s.fAdj.getD 0 none = some e0 ∧
+      CI.run s.nxt s.prv (CI.new e0) ops = ciSpec (fun i => iter s.nxt i e0) s.hullIter.length 0 0 ops := by
+  obtain ⟨e0, hf, he0, hfc0⟩ := outer_anchor s ha hpos hl.2.1
+  have hfe : s.fe 0 = e0 := by simp [St.fe, hf]
+  have hiter : s.hullIter = orbit s.nxt e0 s.nE e0 := by simp [St.hullIter, hf]
+  let P : Nat → Prop := fun x => x < s.nE ∧ s.fc x = 0
+  have hstep : ∀ x, P x → P (s.nxt x) := by
+    intro x ⟨hx, hfx⟩
+    have := hl.2.2.2.2 x hx
+    exact ⟨this.2.1, by rw [this.2.2.2.2.2.2.2.1]; exact hfx⟩
+  have hinv : ∀ x, P x → s.prv (s.nxt x) = x := by
+    intro x ⟨hx, _⟩
+    exact (hl.2.2.2.2 x hx).2.2.2.2.2.1
+  have hclosed : orbitClosed s.nxt e0 (orbit s.nxt e0 s.nE e0) := by
+    have := (ho hpos).1
+    rw [hfe] at this; exact this
+  have hc := orbit_isCycle s.nxt s.prv P hstep hinv e0 ⟨he0, hfc0⟩ s.nE hclosed
+  refine ⟨e0, hf, ?_⟩
+  rw [hiter]
+  exact C14_code_double_ended hc ops
+
+example : CI.run exFive.nxt exFive.prv (CI.new 13) [true, false, false, true, true, true] =
+    [some 13, some 9, some 1, some 11, some 3, none] := by decide
+
 /-- an empty iterator (`new_empty`, used when there is no hull / no out edge) answers `None` at once -/
 theorem C14_code_empty (step back : Nat → Nat) (e : Nat) :
     (CI.newEmpty e).next step = (CI.newEmpty e, none) ∧ (CI.newEmpty e).nextBack back = (CI.newEmpty e, none) := by
